@@ -3,11 +3,14 @@
 package main
 
 import (
+	"bytes"
 	"fmt"
 	"regexp"
 	"sort"
 	"strings"
 	"time"
+
+	clientHandlers "github.com/mimecast/dtail/internal/clients/handlers"
 )
 
 var recordRe = regexp.MustCompile(`^REMOTE\|([^|]*)\|([ 0-9]{3})\|([0-9]+)\|([^|]*)\|(.*)$`)
@@ -71,4 +74,63 @@ func init() {
 		out, status := c.client(60*time.Second, "dcat", "--noColor", "--files", c.dir+"/data/logs/*.log")
 		return fmt.Sprintf("%d;%s", status, groupRecords(out))
 	}
+
+	// c07.sched <nconn> <schedule> : n real client handlers (one per connection, as baseclient.Start
+	// creates them) fed with transport chunks in the order of the schedule; what the stdout logger
+	// printed is reported line by line as <length>:<fnv1a32>.  A chunk is <conn>:<part>.<part>...,
+	// a part is hex or R<len>x<hh> (a run of one byte).
+	ops["c07.sched"] = func(a []string) string {
+		n := atoi(a[0])
+		var hs []*clientHandlers.ClientHandler
+		for i := 0; i < n; i++ {
+			hs = append(hs, clientHandlers.NewClientHandler(fmt.Sprintf("srv%d", i)))
+		}
+		type chunk struct {
+			conn int
+			data []byte
+		}
+		var sched []chunk
+		for _, c := range strings.Split(a[1], ",") {
+			p := strings.SplitN(c, ":", 2)
+			var data []byte
+			for _, part := range strings.Split(p[1], ".") {
+				if strings.HasPrefix(part, "R") {
+					lx := strings.SplitN(part[1:], "x", 2)
+					data = append(data, bytes.Repeat(unhex(lx[1]), atoi(lx[0]))...)
+				} else {
+					data = append(data, unhex(part)...)
+				}
+			}
+			sched = append(sched, chunk{atoi(p[0]), data})
+		}
+		out := captureStdout(func() {
+			for _, c := range sched {
+				hs[c.conn].Write(c.data)
+			}
+		})
+		return digestLines(out)
+	}
+}
+
+// digestLines renders output line by line (a line ends with its newline) as <length>:<fnv1a32>
+func digestLines(out []byte) string {
+	if len(out) == 0 {
+		return "nothing"
+	}
+	var parts []string
+	for len(out) > 0 {
+		i := bytes.IndexByte(out, '\n')
+		var l []byte
+		if i < 0 {
+			l, out = out, nil
+		} else {
+			l, out = out[:i+1], out[i+1:]
+		}
+		h := uint32(2166136261)
+		for _, b := range l {
+			h = (h ^ uint32(b)) * 16777619
+		}
+		parts = append(parts, fmt.Sprintf("%d:%08x", len(l), h))
+	}
+	return strings.Join(parts, ",")
 }
